@@ -518,6 +518,8 @@ class Interp:
         if re.fullmatch(r'[\w:<>, ]+', s) and s.split('::')[-1][:1].isupper():
             ty, variant = self.split_variant(s)
             return Agg(ty, variant, [])
+        m = re.fullmatch(r'(Result|Option)::<.*>::(Ok|Err|Some)\(([A-Z]\w*)\)', s)
+        if m: return Agg(m.group(1), m.group(2), [Cell(Agg(m.group(3), None, []))])     # variant holding a unit struct
         m = re.fullmatch(r'([A-Za-z_][\w:]*) \{\{\s*\}\}', s)
         if m: return Agg(m.group(1).split('::')[-1], None, [])     # empty struct constant
         raise Unsupported("const " + s)
